@@ -23,8 +23,26 @@ use domain::tsig::{
     Algorithm, ClientSequence, ClientTransaction, Key, KeyName, ServerError, ServerSequence,
     ServerTransaction, ValidationError,
 };
+use bytes::Bytes;
+use domain::base::iana::Rcode;
+use domain::base::opt::TcpKeepalive;
+use domain::base::{Name, StaticCompressor};
+use domain::net::client::request::{
+    ComposeRequest, ComposeRequestMulti, Error as ClientError, GetResponse, GetResponseMulti,
+    RequestMessage as PlainReq, RequestMessageMulti as PlainReqMulti, SendRequest, SendRequestMulti,
+};
+use domain::net::client::tsig::Connection as TsigConnection;
+use domain::net::server::message::{NonUdpTransportContext, Request as SrvRequest, UdpTransportContext};
+use domain::net::server::middleware::tsig::TsigMiddlewareSvc;
+use domain::net::server::service::{CallResult, Service, ServiceFeedback, ServiceResult};
+use domain::net::server::util::mk_builder_for_target;
+use domain::rdata::A;
+use futures_util::{FutureExt, StreamExt};
 use mc::wire;
 use mc::*;
+use std::future::Future;
+use std::pin::Pin;
+use std::sync::Mutex;
 use octseq::builder::{OctetsBuilder, Truncate};
 use rayon::prelude::*;
 use ring::hmac;
@@ -409,6 +427,7 @@ enum Cls {
     Other,
 }
 const NCLS: usize = 12;
+const NROLES: usize = 5;
 const CLS_NAMES: [&str; NCLS] = [
     "Accept", "Unsigned", "FormErr", "BadKey", "BadSig", "BadTrunc", "BadTime", "SrvBadKey",
     "SrvBadSig", "SrvBadTime", "TooManyUnsigned", "Other",
@@ -848,8 +867,8 @@ struct Local {
     evals: u64,
     transitions: u64,
     states: u64,
-    lib_cls: [[u64; NCLS]; 3], // role: 0 server, 1 client-tx, 2 client-seq
-    ref_cls: [[u64; NCLS]; 3],
+    lib_cls: [[u64; NCLS]; NROLES], // role: 0 server, 1 client-tx, 2 client-seq, 3 client transport, 4 server middleware
+    ref_cls: [[u64; NCLS]; NROLES],
     counts: BTreeMap<String, u64>,
     distinct: Vec<u64>,
 }
@@ -863,8 +882,8 @@ struct Glob {
     stats: Stats,
     transitions: AtomicU64,
     states: AtomicU64,
-    lib_cls: [[AtomicU64; NCLS]; 3],
-    ref_cls: [[AtomicU64; NCLS]; 3],
+    lib_cls: [[AtomicU64; NCLS]; NROLES],
+    ref_cls: [[AtomicU64; NCLS]; NROLES],
 }
 impl Glob {
     fn new() -> Glob {
@@ -880,7 +899,7 @@ impl Glob {
         self.stats.evaluations.fetch_add(l.evals, AO::Relaxed);
         self.transitions.fetch_add(l.transitions, AO::Relaxed);
         self.states.fetch_add(l.states, AO::Relaxed);
-        for r in 0..3 {
+        for r in 0..NROLES {
             for c in 0..NCLS {
                 self.lib_cls[r][c].fetch_add(l.lib_cls[r][c], AO::Relaxed);
                 self.ref_cls[r][c].fetch_add(l.ref_cls[r][c], AO::Relaxed);
@@ -889,10 +908,10 @@ impl Glob {
         self.stats.merge_counts(&l.counts);
         self.stats.distinct_many(l.distinct);
     }
-    fn hist(&self, which: &[[AtomicU64; NCLS]; 3]) -> Value {
-        let roles = ["server", "client-transaction", "client-sequence"];
+    fn hist(&self, which: &[[AtomicU64; NCLS]; NROLES]) -> Value {
+        let roles = ["server", "client-transaction", "client-sequence", "client-transport(net::client::tsig)", "server-middleware(TsigMiddlewareSvc)"];
         let mut o = serde_json::Map::new();
-        for r in 0..3 {
+        for r in 0..NROLES {
             let mut m = serde_json::Map::new();
             for c in 0..NCLS {
                 let n = which[r][c].load(AO::Relaxed);
@@ -1253,9 +1272,14 @@ fn check_server_error(
 
 fn check_error_response(ctx: &Ctx, l: &mut Local, sc: &ServerScen, msg: &[u8], bytes: &[u8], got: Cls) {
     let replay = || sc.replay(msg);
+    check_error_response_at(ctx, l, "server-error|build_message", &replay, &sc.refstore, sc.now, sc.now, msg, bytes, got)
+}
+
+/// The error response for a refused request; the server's clock was somewhere in `now_lo..=now_hi`.
+fn check_error_response_at(ctx: &Ctx, l: &mut Local, who: &str, replay: &dyn Fn() -> Value, refstore: &[RefKey], now_lo: u64, now_hi: u64, msg: &[u8], bytes: &[u8], got: Cls) {
     let bytes = bytes.to_vec();
     let fail = |what: &str, detail: String| {
-        violate(ctx, &format!("C11|server-error|build_message|{got:?}|{what}"), &format!("error response for {got:?}: {detail}"), &replay);
+        violate(ctx, &format!("C11|{who}|{got:?}|{what}"), &format!("error response for {got:?}: {detail}"), replay);
     };
     if bytes.len() < 12 || get16(&bytes, 0) != get16(msg, 0) || bytes[2] & 0x80 == 0 {
         return fail("header", "ID not copied or QR not set".into());
@@ -1295,13 +1319,14 @@ fn check_error_response(ctx: &Ctx, l: &mut Local, sc: &ServerScen, msg: &[u8], b
             }
         }
         Cls::BadTime => {
-            let ki = sc.refstore.iter().position(|k| Some(k.alg) == Alg::from_labels(&rt.alg) && wire::labels_eq_ci(&k.name, &rt.owner));
+            let ki = refstore.iter().position(|k| Some(k.alg) == Alg::from_labels(&rt.alg) && wire::labels_eq_ci(&k.name, &rt.owner));
             let key = match ki {
-                Some(i) => &sc.refstore[i],
+                Some(i) => &refstore[i],
                 None => return,
             };
-            if t.time != rt.time || t.other != time48(sc.now) {
-                return fail("time-fields", format!("time signed {} (request {}), other data {} (server time {})", t.time, rt.time, hex(&t.other), sc.now));
+            let server_time = if t.other.len() == 6 { u64::from_be_bytes([0, 0, t.other[0], t.other[1], t.other[2], t.other[3], t.other[4], t.other[5]]) } else { u64::MAX };
+            if t.time != rt.time || server_time < now_lo || server_time > now_hi {
+                return fail("time-fields", format!("time signed {} (request {}), other data {} (server time {now_lo}..={now_hi})", t.time, rt.time, hex(&t.other)));
             }
             let presign = strip(&bytes, &t);
             let prefix = mac_prefix(&rt.mac);
@@ -1311,7 +1336,7 @@ fn check_error_response(ctx: &Ctx, l: &mut Local, sc: &ServerScen, msg: &[u8], b
                 let mut v = ref_variables(key, t.time, t.fudge, 18, &[]);
                 let n = v.len();
                 v[n - 2..].copy_from_slice(&6u16.to_be_bytes());
-                v.extend_from_slice(&sc.now.to_be_bytes());
+                v.extend_from_slice(&server_time.to_be_bytes());
                 let alt = key.full_mac(&[&prefix, &presign, &v]);
                 let why = if t.mac.len() == key.sign && alt[..key.sign] == t.mac[..] {
                     "observed=mac-over-8-octet-other-data-after-other-len-6"
@@ -2075,11 +2100,16 @@ fn run_server_sequences(ctx: &Arc<Ctx>, g: &Glob) {
 /// Build the next message an honest RFC 8945 server (the reference signer)
 /// would send for symbol `sym`, given the verifier-side reference state.
 fn seq_message(sym: u8, st: &ClientScen, rk: &RefKey, depth: usize, now: u64, last_signed: &Option<Vec<u8>>) -> Option<Vec<u8>> {
-    let id = get16(&st.req_presign, 0);
+    seq_message_rc(sym, &st.rc, get16(&st.req_presign, 0), rk, depth, now, 301, last_signed)
+}
+
+/// The same, from the verifier-side reference state alone. `late` is how far
+/// before `now` the symbol T signs (301 = first second outside the window).
+fn seq_message_rc(sym: u8, rc: &RefClient, id: u16, rk: &RefKey, depth: usize, now: u64, late: u64, last_signed: &Option<Vec<u8>>) -> Option<Vec<u8>> {
     let presign = shape(1 + depth % 2, true, id, 0, depth as u8);
-    let mut prefix = mac_prefix(&st.rc.prior);
-    prefix.extend_from_slice(&st.rc.pending);
-    let timers = !st.rc.first;
+    let mut prefix = mac_prefix(&rc.prior);
+    prefix.extend_from_slice(&rc.pending);
+    let timers = rc.seq && !rc.first;
     Some(match sym {
         b'S' => ref_sign(rk, &prefix, &presign, timers, now, 300, 0, &[]).0,
         b'U' => presign,
@@ -2093,7 +2123,7 @@ fn seq_message(sym: u8, st: &ClientScen, rk: &RefKey, depth: usize, now: u64, la
             }
             m
         }
-        b'T' => ref_sign(rk, &prefix, &presign, timers, now - 301, 300, 0, &[]).0,
+        b'T' => ref_sign(rk, &prefix, &presign, timers, now - late, 300, 0, &[]).0,
         b'W' => {
             let mut w = rk.clone();
             w.hk = hmac::Key::new(rk.alg.ring(), b"not the shared secret");
@@ -2429,6 +2459,1163 @@ fn run_mutations(ctx: &Arc<Ctx>, g: &Glob, wd: &Watchdog) -> Value {
 }
 
 // =====================================================================
+// THE TRANSPORT WRAPPERS
+//   net::client::tsig::Connection   (signs requests, verifies answers)
+//   net::server::middleware::tsig::TsigMiddlewareSvc
+// Both read the wall clock (Time48::now()); the harness therefore signs
+// relative to the real time and stays >= 100 s away from the fudge edges
+// (the exact edges are decided at the state machines above).
+// =====================================================================
+
+fn real_now() -> u64 {
+    std::time::SystemTime::now().duration_since(std::time::UNIX_EPOCH).unwrap().as_secs()
+}
+
+#[derive(Clone, Debug, PartialEq)]
+enum Step {
+    /// S, U, R(eplay), B(ad MAC), T(ime outside), W(rong secret)
+    Sym(u8),
+    /// honest answer signed `o` seconds away from the real time
+    TimeOff(i64),
+    /// i-th structural mutation of the honest answer
+    Structural(usize),
+    /// i-th bit of the honest answer flipped
+    Bit(usize),
+}
+
+impl Step {
+    fn json(&self) -> Value {
+        match self {
+            Step::Sym(c) => json!({"sym": (*c as char).to_string()}),
+            Step::TimeOff(o) => json!({"timeoff": o}),
+            Step::Structural(i) => json!({"structural": i}),
+            Step::Bit(i) => json!({"bit": i}),
+        }
+    }
+    fn from_json(v: &Value) -> Step {
+        if let Some(s) = v["sym"].as_str() {
+            Step::Sym(s.as_bytes()[0])
+        } else if let Some(o) = v["timeoff"].as_i64() {
+            Step::TimeOff(o)
+        } else if let Some(i) = v["structural"].as_u64() {
+            Step::Structural(i as usize)
+        } else {
+            Step::Bit(v["bit"].as_u64().unwrap() as usize)
+        }
+    }
+}
+
+/// Structural mutations usable under a moving clock, and not re-reporting the
+/// recorded other-data finding through a second door.
+fn structural_for_transports(m: &[u8], key: &RefKey, prefix: &[u8], timers_only: bool, now: u64) -> Vec<(String, Vec<u8>)> {
+    structural(m, key, prefix, timers_only, now)
+        .into_iter()
+        .filter(|(n, _)| !n.starts_with("resigned-time=") && !n.starts_with("other-data-"))
+        .collect()
+}
+
+/// The honest answer at position `depth` of the peer's stream.
+fn honest_answer(rk: &RefKey, rc: &RefClient, id: u16, depth: usize, at: u64) -> (Vec<u8>, Vec<u8>) {
+    let presign = shape(1 + depth % 2, true, id, 0, depth as u8);
+    let mut prefix = mac_prefix(&rc.prior);
+    prefix.extend_from_slice(&rc.pending);
+    (ref_sign(rk, &prefix, &presign, rc.seq && !rc.first, at, 300, 0, &[]).0, prefix)
+}
+
+/// Size of the mutation menus for the answer at `depth`; computed from the
+/// reference alone so that the enumeration never depends on the subject.
+fn answer_menu_sizes(rk: &RefKey, seq: bool, depth: usize) -> (usize, usize) {
+    let mut rc = RefClient::new(rk, seq, &vec![0u8; rk.sign]);
+    rc.first = depth == 0;
+    let (h, prefix) = honest_answer(rk, &rc, 0x6A6A, depth, T0);
+    (structural_for_transports(&h, rk, &prefix, seq && depth > 0, T0).len(), h.len() * 8)
+}
+
+/// State shared between the mock upstream (inside the library call) and the
+/// harness (outside).
+struct UpShared {
+    rk: RefKey,
+    seq: bool,
+    mode: u8,
+    modify: u8,
+    script: Vec<Step>,
+    pos: usize,
+    signed_request: Option<Vec<u8>>,
+    compose_err: Option<String>,
+    /// what the wrapper's pass-through accessors said after `modify`
+    accessors: Option<(u16, bool)>,
+    is_answer: Option<bool>,
+    rc: Option<RefClient>,
+    last_signed: Option<Vec<u8>>,
+    produced: Vec<(String, Vec<u8>)>,
+    exhausted: bool,
+}
+
+impl UpShared {
+    fn set_request(&mut self, bytes: Vec<u8>) {
+        if let Locate::Found(t) = ref_locate(&bytes) {
+            self.rc = Some(RefClient::new(&self.rk, self.seq, &t.mac));
+        }
+        self.signed_request = Some(bytes);
+    }
+
+    /// The next message of the scripted peer, None at the end of the stream.
+    fn next_message(&mut self) -> Option<Vec<u8>> {
+        let step = self.script.get(self.pos)?.clone();
+        let depth = self.pos;
+        self.pos += 1;
+        let rc = self.rc.clone()?;
+        let id = get16(self.signed_request.as_ref()?, 0);
+        let now = real_now();
+        let honest = |rk: &RefKey, at: u64| honest_answer(rk, &rc, id, depth, at);
+        let (name, msg) = match step {
+            Step::Sym(c) => {
+                let m = seq_message_rc(c, &rc, id, &self.rk, depth, now, 400, &self.last_signed)?;
+                if c == b'S' {
+                    self.last_signed = Some(m.clone());
+                }
+                (format!("{}", c as char), m)
+            }
+            Step::TimeOff(o) => (format!("signed at now{o:+}"), honest(&self.rk, (now as i64 + o) as u64).0),
+            Step::Structural(i) => {
+                let (h, prefix) = honest(&self.rk, now);
+                let mut list = structural_for_transports(&h, &self.rk, &prefix, rc.seq && !rc.first, now);
+                if i >= list.len() {
+                    self.exhausted = true;
+                    ("honest".into(), h)
+                } else {
+                    list.swap_remove(i)
+                }
+            }
+            Step::Bit(i) => {
+                let (mut h, _) = honest(&self.rk, now);
+                if i >= h.len() * 8 {
+                    self.exhausted = true;
+                    ("honest".into(), h)
+                } else {
+                    h[i / 8] ^= 0x80 >> (i % 8);
+                    (format!("bit-{i}"), h)
+                }
+            }
+        };
+        self.produced.push((name, msg.clone()));
+        Some(msg)
+    }
+}
+
+fn modify_single<CR: ComposeRequest>(r: &mut CR, modify: u8) {
+    match modify {
+        1 => r.header_mut().set_id(0xBEEF),
+        2 => {
+            r.set_udp_payload_size(1232);
+            r.set_dnssec_ok(true);
+        }
+        3 => {
+            let _ = r.add_opt(&TcpKeepalive::new(None));
+            r.header_mut().set_id(0x0102);
+        }
+        _ => {}
+    }
+}
+fn modify_multi<CR: ComposeRequestMulti>(r: &mut CR, modify: u8) {
+    match modify {
+        1 => r.header_mut().set_id(0xBEEF),
+        2 => {
+            r.set_udp_payload_size(1232);
+            r.set_dnssec_ok(true);
+        }
+        3 => {
+            let _ = r.add_opt(&TcpKeepalive::new(None));
+            r.header_mut().set_id(0x0102);
+        }
+        _ => {}
+    }
+}
+/// The ways a transport obtains the octets to send.
+fn compose_single<CR: ComposeRequest>(r: &CR, mode: u8) -> Result<Vec<u8>, String> {
+    match mode {
+        0 => r.to_message().map(|m| m.as_slice().to_vec()).map_err(|e| format!("{e:?}")),
+        1 => r.to_vec().map_err(|e| format!("{e:?}")),
+        _ => r.append_message(Vec::new()).map(|b| b.as_slice().to_vec()).map_err(|e| format!("{e:?}")),
+    }
+}
+fn compose_multi<CR: ComposeRequestMulti>(r: &CR, mode: u8) -> Result<Vec<u8>, String> {
+    match mode {
+        0 => r.to_message().map(|m| m.as_slice().to_vec()).map_err(|e| format!("{e:?}")),
+        1 => r.append_message(StaticCompressor::new(Vec::new())).map(|b| b.as_slice().to_vec()).map_err(|e| format!("{e:?}")),
+        _ => r.append_message(Vec::new()).map(|b| b.as_slice().to_vec()).map_err(|e| format!("{e:?}")),
+    }
+}
+
+#[derive(Clone)]
+struct MockUp(Arc<Mutex<UpShared>>);
+
+struct MockGet<CR> {
+    req: CR,
+    sh: Arc<Mutex<UpShared>>,
+}
+impl<CR> std::fmt::Debug for MockGet<CR> {
+    fn fmt(&self, f: &mut std::fmt::Formatter<'_>) -> std::fmt::Result {
+        f.write_str("MockGet")
+    }
+}
+struct MockGetMulti<CR> {
+    req: CR,
+    sh: Arc<Mutex<UpShared>>,
+}
+impl<CR> std::fmt::Debug for MockGetMulti<CR> {
+    fn fmt(&self, f: &mut std::fmt::Formatter<'_>) -> std::fmt::Result {
+        f.write_str("MockGetMulti")
+    }
+}
+
+impl<CR: ComposeRequest + 'static> SendRequest<CR> for MockUp {
+    fn send_request(&self, request_msg: CR) -> Box<dyn GetResponse + Send + Sync> {
+        Box::new(MockGet { req: request_msg, sh: self.0.clone() })
+    }
+}
+impl<CR: ComposeRequestMulti + 'static> SendRequestMulti<CR> for MockUp {
+    fn send_request(&self, request_msg: CR) -> Box<dyn GetResponseMulti + Send + Sync> {
+        Box::new(MockGetMulti { req: request_msg, sh: self.0.clone() })
+    }
+}
+
+impl<CR: ComposeRequest> GetResponse for MockGet<CR> {
+    fn get_response(&mut self) -> Pin<Box<dyn Future<Output = Result<Message<Bytes>, ClientError>> + Send + Sync + '_>> {
+        let mut sh = self.sh.lock().unwrap();
+        if sh.signed_request.is_none() {
+            modify_single(&mut self.req, sh.modify);
+            sh.accessors = Some((self.req.header().id(), self.req.dnssec_ok()));
+            match compose_single(&self.req, sh.mode) {
+                Ok(b) => sh.set_request(b),
+                Err(e) => {
+                    sh.compose_err = Some(e);
+                    return Box::pin(std::future::ready(Err(ClientError::ConnectionClosed)));
+                }
+            }
+        }
+        let out = match sh.next_message() {
+            Some(m) => {
+                sh.is_answer = Message::from_slice(&m).ok().map(|x| self.req.is_answer(x));
+                Ok(Message::from_octets(Bytes::from(m)).unwrap())
+            }
+            None => Err(ClientError::ConnectionClosed),
+        };
+        drop(sh);
+        Box::pin(std::future::ready(out))
+    }
+}
+impl<CR: ComposeRequestMulti> GetResponseMulti for MockGetMulti<CR> {
+    fn get_response(&mut self) -> Pin<Box<dyn Future<Output = Result<Option<Message<Bytes>>, ClientError>> + Send + Sync + '_>> {
+        let mut sh = self.sh.lock().unwrap();
+        if sh.signed_request.is_none() {
+            modify_multi(&mut self.req, sh.modify);
+            sh.accessors = Some((self.req.header().id(), self.req.dnssec_ok()));
+            match compose_multi(&self.req, sh.mode) {
+                Ok(b) => sh.set_request(b),
+                Err(e) => {
+                    sh.compose_err = Some(e);
+                    return Box::pin(std::future::ready(Err(ClientError::ConnectionClosed)));
+                }
+            }
+        }
+        let out = sh.next_message().map(|m| {
+            sh.is_answer = Message::from_slice(&m).ok().map(|x| self.req.is_answer(x));
+            Message::from_octets(Bytes::from(m)).unwrap()
+        });
+        drop(sh);
+        Box::pin(std::future::ready(Ok(out)))
+    }
+}
+
+#[derive(Clone, Debug)]
+struct TransportCase {
+    key: KeySpec,
+    multi: bool,
+    shape: usize,
+    mode: u8,
+    modify: u8,
+    script: Vec<Step>,
+}
+impl TransportCase {
+    fn json(&self) -> Value {
+        json!({"kind": "transport-client", "key": self.key.json(), "multi": self.multi, "shape": self.shape, "mode": self.mode,
+               "modify": self.modify, "script": self.script.iter().map(|s| s.json()).collect::<Vec<_>>()})
+    }
+    fn from_json(v: &Value) -> TransportCase {
+        TransportCase {
+            key: KeySpec::from_json(&v["key"]),
+            multi: v["multi"].as_bool().unwrap(),
+            shape: v["shape"].as_u64().unwrap() as usize,
+            mode: v["mode"].as_u64().unwrap() as u8,
+            modify: v["modify"].as_u64().unwrap() as u8,
+            script: v["script"].as_array().unwrap().iter().map(Step::from_json).collect(),
+        }
+    }
+}
+
+struct TransportResult {
+    /// all scripted answers were accepted as the reference says
+    all_accepted: bool,
+    exhausted: bool,
+}
+
+/// Time of the TSIG record of a library-signed message, if inside the window.
+fn signed_time_in(m: &[u8], lo: u64, hi: u64) -> Option<u64> {
+    match ref_locate(m) {
+        Locate::Found(t) if t.time >= lo && t.time <= hi => Some(t.time),
+        _ => None,
+    }
+}
+
+/// One run of the signing/verifying client transport against a scripted peer.
+fn transport_case(ctx: &Ctx, l: &mut Local, c: &TransportCase) -> TransportResult {
+    let mut res = TransportResult { all_accepted: false, exhausted: false };
+    let replay = || c.json();
+    let role = if c.multi { "client-transport-multi" } else { "client-transport" };
+    let k = match c.key.lib() {
+        Ok(Ok(k)) => k,
+        _ => return res,
+    };
+    let rk = c.key.refkey();
+    let sh = Arc::new(Mutex::new(UpShared {
+        rk: rk.clone(), seq: c.multi, mode: c.mode, modify: c.modify, script: c.script.clone(), pos: 0, signed_request: None,
+        compose_err: None, accessors: None, is_answer: None, rc: None, last_signed: None, produced: Vec::new(), exhausted: false,
+    }));
+    let mut raw = shape(c.shape, false, 0x6A6A, 0, 4);
+    if c.multi {
+        // multi-response requests must be zone transfers: QTYPE AXFR
+        let p = 12 + qname().len();
+        set16(&mut raw, p, 252);
+    }
+    let conn = TsigConnection::new(k.clone(), MockUp(sh.clone()));
+    let t0 = real_now();
+    // what the wrapped request would have put on the wire without TSIG
+    let (presign, twin_acc, twin_is_answer): (Result<Vec<u8>, String>, (u16, bool), Box<dyn Fn(&[u8]) -> Option<bool>>) = if c.multi {
+        let mut twin = PlainReqMulti::new(Message::from_octets(raw.clone()).unwrap()).unwrap();
+        modify_multi(&mut twin, c.modify);
+        let acc = (twin.header().id(), twin.dnssec_ok());
+        (compose_multi(&twin, c.mode), acc, Box::new(move |m: &[u8]| Message::from_slice(m).ok().map(|x| twin.is_answer(x))))
+    } else {
+        let mut twin = PlainReq::new(Message::from_octets(raw.clone()).unwrap()).unwrap();
+        modify_single(&mut twin, c.modify);
+        let acc = (twin.header().id(), twin.dnssec_ok());
+        (compose_single(&twin, c.mode), acc, Box::new(move |m: &[u8]| Message::from_slice(m).ok().map(|x| twin.is_answer(x))))
+    };
+    let presign = match presign {
+        Ok(p) => p,
+        Err(_) => return res,
+    };
+    enum Got {
+        Msg(Vec<u8>),
+        End,
+        Err(ClientError),
+        NotReady,
+    }
+    // the request object of the transport under test
+    let mut single: Option<Box<dyn GetResponse + Send + Sync>> = None;
+    let mut multi: Option<Box<dyn GetResponseMulti + Send + Sync>> = None;
+    if c.multi {
+        let plain = PlainReqMulti::new(Message::from_octets(raw.clone()).unwrap()).unwrap();
+        multi = Some(SendRequestMulti::send_request(&conn, plain));
+    } else {
+        let plain = PlainReq::new(Message::from_octets(raw.clone()).unwrap()).unwrap();
+        single = Some(SendRequest::send_request(&conn, plain));
+    }
+    let mut request_checked = false;
+    let mut accepted = 0usize;
+    let steps = if c.multi { c.script.len() + 1 } else { 1 };
+    for i in 0..steps {
+        l.evals += 1;
+        l.transitions += 1;
+        l.states += 1;
+        let r = guard(|| {
+            if let Some(g) = single.as_mut() {
+                match g.get_response().now_or_never() {
+                    None => Got::NotReady,
+                    Some(Ok(m)) => Got::Msg(m.as_slice().to_vec()),
+                    Some(Err(e)) => Got::Err(e),
+                }
+            } else {
+                match multi.as_mut().unwrap().get_response().now_or_never() {
+                    None => Got::NotReady,
+                    Some(Ok(Some(m))) => Got::Msg(m.as_slice().to_vec()),
+                    Some(Ok(None)) => Got::End,
+                    Some(Err(e)) => Got::Err(e),
+                }
+            }
+        });
+        let t1 = real_now();
+        let got = match r {
+            Err(p) => {
+                report_panic(ctx, role, "get_response", "", &p, &replay);
+                return res;
+            }
+            Ok(Got::NotReady) => {
+                violate(ctx, &format!("C11|{role}|get_response|future-not-ready-with-a-ready-upstream"), "get_response() did not complete although the upstream answered immediately", &replay);
+                return res;
+            }
+            Ok(g) => g,
+        };
+        let mut g = sh.lock().unwrap();
+        if let Some(e) = &g.compose_err {
+            violate(ctx, &format!("C11|{role}|request|compose-error"), &format!("composing the signed request failed: {e}"), &replay);
+            return res;
+        }
+        res.exhausted = g.exhausted;
+        if res.exhausted {
+            return res;
+        }
+        if !request_checked {
+            request_checked = true;
+            // the request the transport would have sent
+            let signed = match &g.signed_request {
+                Some(s) => s.clone(),
+                None => return res,
+            };
+            let time = match signed_time_in(&signed, t0, t1) {
+                Some(t) => t,
+                None => {
+                    violate(ctx, &format!("C11|{role}|request|signed-output|time-signed-not-the-current-time"), "the request is not signed with the current time (or carries no well placed TSIG)", &replay);
+                    return res;
+                }
+            };
+            if check_signed_by_lib(ctx, role, "request", &rk, &[], None, &presign, &signed, false, time, 300, &replay).is_none() {
+                return res;
+            }
+            l.c("transport request MAC equals reference");
+            l.distinct.push(fnv(format!("req{}{:?}{}{}{}", c.key.tag(), c.script, c.mode, c.modify, c.shape).as_bytes()));
+            if g.accessors != Some(twin_acc) {
+                violate(ctx, &format!("C11|{role}|request|pass-through-accessors"), &format!("header id / dnssec_ok through the wrapper {:?}, on the wrapped request {:?}", g.accessors, twin_acc), &replay);
+            }
+        }
+        let at_end = i >= c.script.len();
+        let rc = match g.rc.clone() {
+            Some(rc) => rc,
+            None => return res,
+        };
+        if at_end {
+            // end of stream: done() decides
+            let want_ok = rc.run == 0 && !rc.first;
+            let ok = matches!(got, Got::End);
+            l.c(if ok { "transport end of stream: ok" } else { "transport end of stream: error" });
+            if verbose() {
+                println!("  {role}.end-of-stream: reference ok={want_ok}, library ok={ok}");
+            }
+            if ok != want_ok || matches!(got, Got::Msg(_)) {
+                violate(ctx, &format!("C11|{role}|end-of-stream|last-message-signed={want_ok}|observed ok={ok}"), "the end of the answer stream must be accepted iff the last message carried a TSIG", &replay);
+            }
+            res.all_accepted = accepted == c.script.len();
+            return res;
+        }
+        let (name, msg) = match g.produced.get(i) {
+            Some(x) => x.clone(),
+            None => return res, // script symbol not producible (e.g. replay before any signed message)
+        };
+        if i == 0 && g.is_answer != twin_is_answer(&msg) {
+            violate(ctx, &format!("C11|{role}|request|pass-through-is_answer"), "is_answer through the wrapper differs from the wrapped request", &replay);
+        }
+        let (exp, commit) = rc.expect(&msg, t1);
+        l.ref_cls[3][exp.primary as usize] += 1;
+        let cls = match &got {
+            Got::Msg(_) => Cls::Accept,
+            Got::Err(ClientError::Authentication(e)) => cls_of_validation(e),
+            _ => Cls::Other,
+        };
+        l.lib_cls[3][cls as usize] += 1;
+        l.distinct.push(fnv(format!("{}{:?}{}{}{}{:?}", c.key.tag(), c.script, c.mode, c.modify, c.shape, i).as_bytes()));
+        let agreed = judge(ctx, role, "get_response", &exp, cls, &name, &replay);
+        if !(agreed && exp.primary == cls) {
+            return res;
+        }
+        if cls != Cls::Accept {
+            return res;
+        }
+        if let Got::Msg(after) = &got {
+            match &commit {
+                Commit::Signed { stripped, .. } => check_restored(ctx, role, "get_response", after, stripped, l, &replay),
+                Commit::Unsigned => {
+                    if after[..] != msg[..] {
+                        violate(ctx, &format!("C11|{role}|get_response|unsigned-intermediate|message-modified"), "unsigned message was modified", &replay);
+                    }
+                }
+                Commit::None => {}
+            }
+        }
+        let mut rc2 = rc;
+        rc2.commit(&commit, &msg);
+        g.rc = Some(rc2);
+        accepted += 1;
+    }
+    res.all_accepted = accepted == c.script.len();
+    res
+}
+
+fn transport_keys(quick: bool) -> Vec<KeySpec> {
+    let mut v = key_variants(quick, true);
+    // a key name that shares its suffix with the question: the compressing
+    // target of to_message() then writes the TSIG owner with a pointer
+    for alg in ALGS {
+        v.push(KeySpec { alg, secret: SECRET.to_vec(), name: "TSIG-Key.Example.ORG".into(), min: None, sign: if alg == Alg::Sha256 { Some(alg.floor()) } else { None } });
+    }
+    v
+}
+
+fn run_client_transport(ctx: &Arc<Ctx>, g: &Glob, wd: &Watchdog) -> Value {
+    let quick = ctx.quick();
+    let kvs = transport_keys(quick);
+    let counts = Mutex::new(BTreeMap::<&'static str, u64>::new());
+    let bump = |k: &'static str, n: u64| *counts.lock().unwrap().entry(k).or_insert(0) += n;
+    kvs.par_iter().for_each(|kv| {
+        wd.enter(|| json!({"kind": "job", "runner": "client-transport", "key": kv.json()}));
+        let mut l = Local::default();
+        let full = kv.min == kv.sign; // mutation menus for the symmetric keys
+        // (a) single answer: every way of composing x every request modification x clock offsets
+        for shape_id in [0usize, 3] {
+            for mode in 0..3u8 {
+                for modify in 0..4u8 {
+                    for o in [-400i64, -200, 0, 200, 400] {
+                        transport_case(ctx, &mut l, &TransportCase { key: kv.clone(), multi: false, shape: shape_id, mode, modify, script: vec![Step::TimeOff(o)] });
+                        bump("single honest/offset cases", 1);
+                    }
+                }
+            }
+        }
+        // (b) single answer: the whole mutation menu
+        if full {
+            let sizes = answer_menu_sizes(&kv.refkey(), false, 0);
+            for mk in [0usize, 1] {
+                for i in 0..if mk == 0 { sizes.0 } else { sizes.1 } {
+                    let step = if mk == 0 { Step::Structural(i) } else { Step::Bit(i) };
+                    let r = transport_case(ctx, &mut l, &TransportCase { key: kv.clone(), multi: false, shape: 0, mode: 0, modify: 0, script: vec![step] });
+                    if r.exhausted {
+                        violate(ctx, "C11|machinery|mutation-menu-size", "menu shorter than computed", &|| json!({"kind": "job"}));
+                        break;
+                    }
+                    bump(if mk == 0 { "single structural mutations" } else { "single bit flips" }, 1);
+                }
+            }
+        }
+        // (c) answer streams: every pattern over the fault alphabet, prefix-closed
+        let depth = if quick { 4 } else { 5 };
+        for mode in [0u8, 2] {
+            let mut frontier: Vec<Vec<Step>> = vec![Vec::new()];
+            for _ in 0..depth {
+                let mut next = Vec::new();
+                for p in &frontier {
+                    for sym in *b"SURBTW" {
+                        if sym == b'R' && !p.iter().any(|s| *s == Step::Sym(b'S')) {
+                            continue;
+                        }
+                        let mut q = p.clone();
+                        q.push(Step::Sym(sym));
+                        let r = transport_case(ctx, &mut l, &TransportCase { key: kv.clone(), multi: true, shape: 0, mode, modify: if mode == 0 { 0 } else { 1 }, script: q.clone() });
+                        bump("stream patterns", 1);
+                        if r.all_accepted {
+                            next.push(q);
+                        }
+                    }
+                }
+                frontier = next;
+            }
+        }
+        // (d) streams: first and subsequent message mutation menus, and S U^k (S) around the limit
+        if full {
+            for pre in [vec![Step::Sym(b'S')], vec![Step::Sym(b'S'), Step::Sym(b'U')]] {
+                let sizes = answer_menu_sizes(&kv.refkey(), true, pre.len());
+                for mk in [0usize, 1] {
+                    for i in 0..if mk == 0 { sizes.0 } else { sizes.1 } {
+                        let mut script = pre.clone();
+                        script.push(if mk == 0 { Step::Structural(i) } else { Step::Bit(i) });
+                        let r = transport_case(ctx, &mut l, &TransportCase { key: kv.clone(), multi: true, shape: 0, mode: 0, modify: 0, script });
+                        if r.exhausted {
+                            violate(ctx, "C11|machinery|mutation-menu-size", "menu shorter than computed", &|| json!({"kind": "job"}));
+                            break;
+                        }
+                        bump("stream subsequent-message mutations", 1);
+                    }
+                }
+            }
+        }
+        if kv.min.is_none() && kv.sign.is_none() && kv.name.starts_with('t') {
+            for k in [98usize, 99, 100] {
+                for tail in [None, Some(b'S')] {
+                    let mut script = vec![Step::Sym(b'S')];
+                    script.extend(std::iter::repeat(Step::Sym(b'U')).take(k));
+                    if let Some(t) = tail {
+                        script.push(Step::Sym(t));
+                    }
+                    transport_case(ctx, &mut l, &TransportCase { key: kv.clone(), multi: true, shape: 0, mode: 0, modify: 0, script });
+                    bump("stream unsigned-run cases", 1);
+                }
+            }
+        }
+        g.merge(l);
+        wd.leave();
+    });
+    g_sample(|| json!({"runner": "client-transport", "what": "net::client::tsig::Connection over a scripted SendRequest/SendRequestMulti upstream answering from the reference signer",
+        "compose_modes": ["to_message", "to_vec / append_message(StaticCompressor)", "append_message(Vec)"],
+        "request_modifications_by_the_upstream": ["none", "header_mut().set_id", "set_udp_payload_size+set_dnssec_ok", "add_opt+set_id"]}));
+    json!(counts.into_inner().unwrap())
+}
+
+// ---------------------------------------------------------------------
+// TsigMiddlewareSvc behind a mock service
+// ---------------------------------------------------------------------
+
+#[derive(Clone, Debug)]
+struct SvcPlan {
+    /// number of responses the service produces
+    n: usize,
+    /// 0: no feedback (single response), 1: BeginTransaction attached to the
+    /// first response, 2: feedback-only BeginTransaction/EndTransaction items
+    /// around the responses (what the XFR service does)
+    feedback: u8,
+    /// index of a response that leaves no room for the TSIG record
+    oversize: Option<usize>,
+}
+
+#[derive(Default)]
+struct SvcShared {
+    calls: Vec<SvcCall>,
+}
+struct SvcCall {
+    key: Option<(Vec<u8>, usize)>, // key name (wire) and algorithm native length, from the metadata
+    msg: Vec<u8>,
+    reserved: u16,
+    presigns: Vec<Vec<u8>>,
+}
+
+#[derive(Clone)]
+struct MockSvc {
+    plan: SvcPlan,
+    sh: Arc<Mutex<SvcShared>>,
+}
+
+type SvcStream = futures_util::stream::Iter<std::vec::IntoIter<ServiceResult<Vec<u8>>>>;
+
+impl Service<Vec<u8>, Option<K>> for MockSvc {
+    type Target = Vec<u8>;
+    type Stream = SvcStream;
+    type Future = std::future::Ready<SvcStream>;
+
+    fn call(&self, request: SrvRequest<Vec<u8>, Option<K>>) -> Self::Future {
+        let owner = Name::<Vec<u8>>::from_str("www.example.org.").unwrap();
+        let mut items: Vec<ServiceResult<Vec<u8>>> = Vec::new();
+        let mut presigns = Vec::new();
+        if self.plan.feedback == 2 {
+            items.push(Ok(CallResult::feedback_only(ServiceFeedback::BeginTransaction)));
+        }
+        for i in 0..self.plan.n {
+            let b = mk_builder_for_target::<Vec<u8>>();
+            let mut a = b.start_answer(request.message(), Rcode::NOERROR).unwrap();
+            for j in 0..=(i % 3) as u8 {
+                a.push((&owner, 3600, A::from_octets(192, 0, 2, j))).unwrap();
+            }
+            if self.plan.oversize == Some(i) {
+                // fill the 65535 octets a stream message can have
+                while a.as_slice().len() + 31 <= 65535 {
+                    if a.push((&owner, 3600, A::from_octets(10, 0, 0, 1))).is_err() {
+                        break;
+                    }
+                }
+            }
+            let add = a.additional();
+            presigns.push(add.as_slice().to_vec());
+            let mut cr = CallResult::new(add);
+            if self.plan.feedback == 1 && i == 0 {
+                cr = cr.with_feedback(ServiceFeedback::BeginTransaction);
+            }
+            items.push(Ok(cr));
+        }
+        if self.plan.feedback == 2 {
+            items.push(Ok(CallResult::feedback_only(ServiceFeedback::EndTransaction)));
+        }
+        self.sh.lock().unwrap().calls.push(SvcCall {
+            key: request.metadata().as_ref().map(|k| (k.name().as_slice().to_vec(), k.native_len())),
+            msg: request.message().as_slice().to_vec(),
+            reserved: request.num_reserved_bytes(),
+            presigns,
+        });
+        std::future::ready(futures_util::stream::iter(items))
+    }
+}
+
+#[derive(Clone, Debug)]
+struct MwCase {
+    keys: Vec<KeySpec>,
+    plan: SvcPlan,
+    tcp: bool,
+    /// how the request is made from the reference-signed honest request
+    step: Step,
+    shape: usize,
+}
+impl MwCase {
+    fn json(&self) -> Value {
+        json!({"kind": "middleware", "keys": self.keys.iter().map(|k| k.json()).collect::<Vec<_>>(), "n": self.plan.n, "feedback": self.plan.feedback,
+               "oversize": self.plan.oversize, "tcp": self.tcp, "step": self.step.json(), "shape": self.shape})
+    }
+    fn from_json(v: &Value) -> MwCase {
+        MwCase {
+            keys: v["keys"].as_array().unwrap().iter().map(KeySpec::from_json).collect(),
+            plan: SvcPlan { n: v["n"].as_u64().unwrap() as usize, feedback: v["feedback"].as_u64().unwrap() as u8, oversize: v["oversize"].as_u64().map(|x| x as usize) },
+            tcp: v["tcp"].as_bool().unwrap(),
+            step: Step::from_json(&v["step"]),
+            shape: v["shape"].as_u64().unwrap() as usize,
+        }
+    }
+}
+
+/// Length of the TSIG RR a key appends to an answer (no other data).
+fn ref_tsig_rr_len(k: &RefKey) -> usize {
+    wire::to_wire(&k.name).len() + 10 + wire::to_wire(&[k.alg.label().to_vec()]).len() + 16 + k.sign
+}
+
+/// One request through the middleware. Returns true when the mutation index ran out.
+fn middleware_case(ctx: &Ctx, l: &mut Local, c: &MwCase) -> bool {
+    let replay = || c.json();
+    let role = "middleware";
+    let refstore: Vec<RefKey> = c.keys.iter().map(|k| k.refkey()).collect();
+    let libs: Vec<K> = match c.keys.iter().map(|k| k.lib()).collect::<Result<Result<Vec<_>, _>, _>>() {
+        Ok(Ok(v)) => v,
+        _ => return false,
+    };
+    let rk = &refstore[0];
+    // the request, from the independent signer
+    let now = real_now();
+    let presign_req = shape(c.shape, false, 0x2B2B, 0, 7);
+    let honest = |at: u64| ref_sign(rk, &[], &presign_req, false, at, 300, 0, &[]).0;
+    let (mname, reqmsg) = match &c.step {
+        Step::Sym(b'U') => ("unsigned-request".to_string(), presign_req.clone()),
+        Step::Sym(b'W') => {
+            let mut w = rk.clone();
+            w.hk = hmac::Key::new(rk.alg.ring(), b"not the shared secret");
+            ("wrong-secret".to_string(), ref_sign(&w, &[], &presign_req, false, now, 300, 0, &[]).0)
+        }
+        Step::Sym(_) => ("honest".to_string(), honest(now)),
+        Step::TimeOff(o) => (format!("signed at now{o:+}"), honest((now as i64 + o) as u64)),
+        Step::Structural(i) => {
+            let h = honest(now);
+            let mut list = structural_for_transports(&h, rk, &[], false, now);
+            if *i >= list.len() {
+                return true;
+            }
+            list.swap_remove(*i)
+        }
+        Step::Bit(i) => {
+            let mut h = honest(now);
+            if *i >= h.len() * 8 {
+                return true;
+            }
+            h[i / 8] ^= 0x80 >> (i % 8);
+            (format!("bit-{i}"), h)
+        }
+    };
+    l.evals += 1;
+    l.transitions += 1;
+    l.states += 1;
+    let sh = Arc::new(Mutex::new(SvcShared::default()));
+    let svc = MockSvc { plan: c.plan.clone(), sh: sh.clone() };
+    type Item = Result<(Option<Vec<u8>>, Option<ServiceFeedback>), String>;
+    let run = |req: SrvRequest<Vec<u8>, ()>| -> Result<Option<Vec<Item>>, String> {
+        let drive = |mut st: Pin<Box<dyn futures_util::Stream<Item = ServiceResult<Vec<u8>>> + Send>>| {
+            let mut items: Vec<Item> = Vec::new();
+            loop {
+                match st.next().now_or_never() {
+                    None => return None,
+                    Some(None) => break,
+                    Some(Some(Ok(cr))) => {
+                        let (resp, fb) = cr.into_inner();
+                        items.push(Ok((resp.map(|r| r.as_slice().to_vec()), fb)));
+                    }
+                    Some(Some(Err(e))) => items.push(Err(format!("{e}"))),
+                }
+                if items.len() > 16 {
+                    break;
+                }
+            }
+            Some(items)
+        };
+        guard(|| {
+            if libs.len() == 1 {
+                let mw = TsigMiddlewareSvc::<Vec<u8>, MockSvc, K, ()>::new(svc.clone(), libs[0].clone());
+                mw.call(req).now_or_never().and_then(|st| drive(Box::pin(st)))
+            } else {
+                let mut h: HashMap<(KeyName, Algorithm), K> = HashMap::new();
+                for k in &libs {
+                    h.insert((k.name().clone(), k.algorithm()), k.clone());
+                }
+                let mw = TsigMiddlewareSvc::<Vec<u8>, MockSvc, HashMap<(KeyName, Algorithm), K>, ()>::new(svc.clone(), h);
+                mw.call(req).now_or_never().and_then(|st| drive(Box::pin(st)))
+            }
+        })
+    };
+    let tctx = if c.tcp { NonUdpTransportContext::new(None).into() } else { UdpTransportContext::new(None).into() };
+    let request = SrvRequest::new("192.0.2.7:5353".parse().unwrap(), tokio::time::Instant::now(), Message::from_octets(reqmsg.clone()).unwrap(), tctx, ());
+    let t0 = real_now();
+    let out = run(request);
+    let t1 = real_now();
+    let items = match out {
+        Err(p) => {
+            report_panic(ctx, role, "call", "", &p, &replay);
+            return false;
+        }
+        Ok(None) => {
+            violate(ctx, "C11|middleware|call|stream-not-ready-with-a-ready-service", "the middleware stream did not complete although the service answered immediately", &replay);
+            return false;
+        }
+        Ok(Some(i)) => i,
+    };
+    let (exp, acc) = ref_server(&refstore, &reqmsg, t1);
+    l.ref_cls[4][exp.primary as usize] += 1;
+    let g = sh.lock().unwrap();
+    let responses: Vec<&Vec<u8>> = items.iter().filter_map(|i| i.as_ref().ok().and_then(|(r, _)| r.as_ref())).collect();
+    let got = if let Some(call) = g.calls.first() {
+        if call.key.is_some() {
+            Cls::Accept
+        } else {
+            Cls::Unsigned
+        }
+    } else if let (1, Some(r)) = (items.len(), responses.first()) {
+        // the middleware answered itself: which error did it send?
+        match (r.get(3).map(|b| b & 0x0F), ref_locate(r)) {
+            (Some(1), _) => Cls::FormErr,
+            (Some(9), Locate::Found(t)) => cls_of_code(t.error),
+            _ => Cls::Other,
+        }
+    } else {
+        Cls::Other
+    };
+    l.lib_cls[4][got as usize] += 1;
+    l.distinct.push(fnv(format!("mw{:?}{}", c, mname).as_bytes()));
+    let agreed = judge(ctx, role, "call", &exp, got, &mname, &replay);
+    if !agreed || exp.primary != got {
+        if agreed && !matches!(got, Cls::Accept | Cls::Unsigned) {
+            // an allowed alternative rejection: still check the error message
+            check_error_response_at(ctx, l, "middleware|error-response", &replay, &refstore, t0, t1, &reqmsg, responses[0], got);
+        }
+        return false;
+    }
+    if g.calls.len() > 1 {
+        violate(ctx, "C11|middleware|call|service-called-more-than-once", "the next service was called more than once for one request", &replay);
+        return false;
+    }
+    match got {
+        Cls::Accept => {
+            let call = &g.calls[0];
+            let (ki, reqmac, stripped) = acc.unwrap();
+            let key = &refstore[ki];
+            check_restored(ctx, role, "request-passed-on", &call.msg, &stripped, l, &replay);
+            if call.key != Some((wire::to_wire(&key.name), key.alg.native())) && call.key.as_ref().map(|k| wire::lower(&k.0)) != Some(wire::lower(&wire::to_wire(&key.name))) {
+                violate(ctx, "C11|middleware|call|metadata-key", "the key handed to the next service is not the key that signed the request", &replay);
+            }
+            if call.reserved as usize != ref_tsig_rr_len(key) {
+                violate(ctx, "C11|middleware|call|reserved-octets!=length-of-the-TSIG-record", &format!("{} octets reserved for a TSIG record of {} octets", call.reserved, ref_tsig_rr_len(key)), &replay);
+            }
+            if responses.len() != c.plan.n {
+                violate(ctx, "C11|middleware|call|number-of-responses", &format!("{} responses from the service, {} from the middleware", c.plan.n, responses.len()), &replay);
+                return false;
+            }
+            let sequence = c.plan.feedback != 0;
+            let mut prior_wire = reqmac.clone();
+            let mut prior_full = reqmac;
+            for (i, signed) in responses.iter().enumerate() {
+                let timers = sequence && i > 0;
+                let op = if !sequence { "single-response" } else if i == 0 { "stream-first-response" } else { "stream-subsequent-response" };
+                let time = match signed_time_in(signed, t0, t1) {
+                    Some(t) => t,
+                    None => {
+                        violate(ctx, &format!("C11|middleware|{op}|signed-output|not-signed-with-the-current-time"), "response to a signed request carries no well placed TSIG with the current time", &replay);
+                        return false;
+                    }
+                };
+                let mut presign = call.presigns[i].clone();
+                let op_name;
+                if c.plan.oversize == Some(i) {
+                    // RFC 8945 5.3: only the question and the TSIG, TC set, RCODE 0
+                    let mut p = presign_req[..12 + qname().len() + 4].to_vec();
+                    p[2] = (presign_req[2] & 0x79) | 0x80 | 0x02; // QR, opcode and RD kept, TC set
+                    p[3] = 0;
+                    set16(&mut p, 6, 0);
+                    set16(&mut p, 8, 0);
+                    set16(&mut p, 10, 0);
+                    presign = p;
+                    op_name = format!("{op}(truncated-because-no-room)");
+                } else {
+                    op_name = op.to_string();
+                }
+                let mut alt = mac_prefix(&prior_full);
+                if c.plan.oversize == Some(i) && sequence {
+                    // explanation to try: the sequence state had already moved on
+                    // over the response that did not fit when its TSIG was refused
+                    for at in t0..=t1 {
+                        let vars = if timers { ref_timers(at, 300) } else { ref_variables(key, at, 300, 0, &[]) };
+                        let lost = key.full_mac(&[&mac_prefix(&prior_wire), &call.presigns[i], &vars]);
+                        let p = mac_prefix(&lost[..key.sign]);
+                        let probe = key.full_mac(&[&p, &presign, &ref_timers(time, 300)]);
+                        if let Locate::Found(t) = ref_locate(signed) {
+                            if probe[..key.sign] == t.mac[..] {
+                                violate(ctx, "C11|middleware|stream-response(truncated-because-no-room)|signed-output|mac!=reference|observed=digest-continues-from-the-response-that-was-never-sent",
+                                    "after a response of a stream left no room for its TSIG record, the replacement (question + TSIG, TC set) is signed as if the oversized response had been sent: a client cannot verify it", &replay);
+                                return false;
+                            }
+                        }
+                    }
+                    alt = mac_prefix(&prior_wire);
+                }
+                let mac = check_signed_by_lib(ctx, role, &op_name, key, &mac_prefix(&prior_wire), Some(&alt), &presign, signed, timers, time, 300, &replay);
+                let mac = match mac {
+                    Some(m) => m,
+                    None => return false,
+                };
+                if c.plan.oversize != Some(i) && signed.len() - presign.len() != call.reserved as usize {
+                    violate(ctx, "C11|middleware|call|reserved-octets!=appended-octets", &format!("{} octets reserved, {} appended", call.reserved, signed.len() - presign.len()), &replay);
+                }
+                l.c("middleware response MAC equals reference");
+                let vars = if timers { ref_timers(time, 300) } else { ref_variables(key, time, 300, 0, &[]) };
+                prior_full = key.full_mac(&[&mac_prefix(&prior_wire), &presign, &vars]);
+                prior_wire = mac;
+                if !sequence {
+                    break;
+                }
+            }
+        }
+        Cls::Unsigned => {
+            let call = &g.calls[0];
+            if call.msg != reqmsg || call.reserved != 0 {
+                violate(ctx, "C11|middleware|call|unsigned-request-not-passed-through", "a request without TSIG must reach the service unchanged", &replay);
+            }
+            if responses.len() != call.presigns.len() || responses.iter().zip(&call.presigns).any(|(a, b)| a[..] != b[..]) {
+                violate(ctx, "C11|middleware|call|unsigned-response-modified", "responses to a request without TSIG must pass unchanged", &replay);
+            }
+            l.c("middleware: unsigned pass-through");
+        }
+        _ => {
+            l.c(&format!("middleware error response for {got:?}"));
+            check_error_response_at(ctx, l, "middleware|error-response", &replay, &refstore, t0, t1, &reqmsg, responses[0], got);
+        }
+    }
+    false
+}
+
+fn run_middleware(ctx: &Arc<Ctx>, g: &Glob, wd: &Watchdog) -> Value {
+    let quick = ctx.quick();
+    let kvs = key_variants(quick, true);
+    let counts = Mutex::new(BTreeMap::<&'static str, u64>::new());
+    let bump = |k: &'static str, n: u64| *counts.lock().unwrap().entry(k).or_insert(0) += n;
+    let plans = [
+        SvcPlan { n: 1, feedback: 0, oversize: None },
+        SvcPlan { n: 1, feedback: 1, oversize: None },
+        SvcPlan { n: 3, feedback: 1, oversize: None },
+        SvcPlan { n: 4, feedback: 2, oversize: None },
+        SvcPlan { n: 1, feedback: 0, oversize: Some(0) },
+        SvcPlan { n: 3, feedback: 2, oversize: Some(0) },
+        SvcPlan { n: 3, feedback: 2, oversize: Some(1) },
+        SvcPlan { n: 3, feedback: 1, oversize: Some(2) },
+    ];
+    kvs.par_iter().for_each(|kv| {
+        wd.enter(|| json!({"kind": "job", "runner": "middleware", "key": kv.json()}));
+        let mut l = Local::default();
+        let single = vec![kv.clone()];
+        let multi = other_keys(kv);
+        // (a) honest requests: every service plan x both stores x transports x request shapes
+        for plan in &plans {
+            for keys in [&single, &multi] {
+                for shape_id in [0usize, 2, 3] {
+                    for step in [Step::Sym(b'S'), Step::Sym(b'U')] {
+                        middleware_case(ctx, &mut l, &MwCase { keys: keys.clone(), plan: plan.clone(), tcp: plan.n > 1 || plan.oversize.is_some(), step, shape: shape_id });
+                        bump("honest and unsigned requests", 1);
+                    }
+                }
+            }
+        }
+        // (b) clock offsets and the wrong secret
+        for o in [-400i64, -200, 200, 400] {
+            for tcp in [false, true] {
+                middleware_case(ctx, &mut l, &MwCase { keys: single.clone(), plan: plans[0].clone(), tcp, step: Step::TimeOff(o), shape: 0 });
+                bump("clock offsets", 1);
+            }
+        }
+        middleware_case(ctx, &mut l, &MwCase { keys: single.clone(), plan: plans[0].clone(), tcp: false, step: Step::Sym(b'W'), shape: 0 });
+        // (c) the whole mutation menu on the request
+        if kv.min == kv.sign {
+            for (keys, bits) in [(&single, true), (&multi, false)] {
+                for mk in [0usize, 1] {
+                    if mk == 1 && !bits {
+                        continue;
+                    }
+                    let mut i = 0;
+                    loop {
+                        let step = if mk == 0 { Step::Structural(i) } else { Step::Bit(i) };
+                        if middleware_case(ctx, &mut l, &MwCase { keys: keys.clone(), plan: plans[if i % 2 == 0 { 0 } else { 2 }].clone(), tcp: i % 2 == 1, step, shape: if mk == 0 { 3 } else { 0 } }) {
+                            break;
+                        }
+                        bump(if mk == 0 { "request structural mutations" } else { "request bit flips" }, 1);
+                        i += 1;
+                    }
+                }
+            }
+        }
+        g.merge(l);
+        wd.leave();
+    });
+    g_sample(|| json!({"runner": "middleware", "what": "TsigMiddlewareSvc::call over a mock Service; requests from the reference signer",
+        "service_plans": plans.iter().map(|p| format!("{p:?}")).collect::<Vec<_>>()}));
+    json!(counts.into_inner().unwrap())
+}
+
+// ---------------------------------------------------------------------
+// Remaining entry points: Key::generate, a plain `Key` as key and store
+// type, the Arc<HashMap<_, Key>> store, Algorithm <-> text
+// ---------------------------------------------------------------------
+
+fn server_verdict_with<S>(store: &S, msg: &[u8], now: u64) -> Result<(Cls, Vec<u8>), String>
+where
+    S: domain::tsig::KeyStore,
+{
+    let mut m = Message::from_octets(msg.to_vec()).unwrap();
+    guard(|| match ServerTransaction::request(store, &mut m, Time48::from_u64(now)) {
+        Ok(Some(_)) => Cls::Accept,
+        Ok(None) => Cls::Unsigned,
+        Err(e) => cls_of_code(e.error().to_int()),
+    })
+    .map(|c| (c, m.as_slice().to_vec()))
+}
+
+fn key_misc_case(ctx: &Ctx, l: &mut Local, alg: Alg, mn: Option<usize>, sg: Option<usize>) {
+    let replay = || json!({"kind": "key_misc", "alg": alg.idx(), "min": mn, "sign": sg});
+    l.evals += 1;
+    l.transitions += 1;
+    l.states += 1;
+    let inb = |x: Option<usize>| x.map(|x| x >= alg.floor() && x <= alg.native()).unwrap_or(true);
+    let want = inb(mn) && inb(sg);
+    let rng = ring::rand::SystemRandom::new();
+    let name = "Generated-Key.example";
+    let r = guard(|| Key::generate(alg.lib(), &rng, KeyName::from_str(&format!("{name}.")).unwrap(), mn, sg).map_err(|e| format!("{e:?}")));
+    let (key, secret) = match r {
+        Err(p) => return report_panic(ctx, "key", "generate", "bounds", &p, &replay),
+        Ok(r) => {
+            if r.is_ok() != want {
+                violate(ctx, &format!("C11|key|generate|length-in-rfc-range={want}|observed ok={}", r.is_ok()), &format!("Key::generate({alg:?}, {mn:?}, {sg:?}) -> ok={}", r.is_ok()), &replay);
+                return;
+            }
+            match r {
+                Ok(x) => x,
+                Err(_) => return,
+            }
+        }
+    };
+    if secret.len() != alg.native() {
+        violate(ctx, "C11|key|generate|secret-length", &format!("generated secret has {} octets", secret.len()), &replay);
+    }
+    l.distinct.push(fnv(format!("gen{alg:?}{mn:?}{sg:?}").as_bytes()));
+    // the exported octets make the same key for the reference
+    let spec = KeySpec { alg, secret: secret.to_vec(), name: name.into(), min: mn, sign: sg };
+    let rk = spec.refkey();
+    let presign = shape(3, false, 0x0909, 0, 1);
+    // the plain `Key` as key type (AsRef<Key> for Key) and as single-key store
+    let mut b = builder_from(&presign);
+    l.transitions += 1;
+    let tx = match guard(|| ClientTransaction::request(key.clone(), &mut b, Time48::from_u64(T0)).map_err(|e| format!("{e:?}"))) {
+        Ok(Ok(tx)) => tx,
+        Ok(Err(e)) => {
+            violate(ctx, "C11|client-transaction|request|push-error", &e, &replay);
+            return;
+        }
+        Err(p) => return report_panic(ctx, "client-transaction", "request(default fudge)", "", &p, &replay),
+    };
+    let signed = b.as_slice().to_vec();
+    let reqmac = match check_signed_by_lib(ctx, "client-transaction", "request(generated key, default fudge)", &rk, &[], None, &presign, &signed, false, T0, 300, &replay) {
+        Some(m) => m,
+        None => return,
+    };
+    l.c("generated key: request MAC equals reference");
+    // stores: the key itself, and Arc<HashMap<(name, algorithm), Key>>
+    let mut h: HashMap<(KeyName, Algorithm), Key> = HashMap::new();
+    h.insert((key.name().clone(), key.algorithm()), key.clone());
+    let arcmap = Arc::new(h);
+    let mut msgs = vec![("honest".to_string(), signed.clone())];
+    msgs.extend(structural(&signed, &rk, &[], false, T0 + 1).into_iter().filter(|(n, _)| !n.starts_with("other-data-") && !n.starts_with("mac-length")));
+    for (mname, m) in &msgs {
+        let (exp, acc) = ref_server(&[rk.clone()], m, T0 + 1);
+        for (sname, r) in [("Key", server_verdict_with(&key, m, T0 + 1)), ("Arc<HashMap<_,Key>>", server_verdict_with(&arcmap, m, T0 + 1))] {
+            l.evals += 1;
+            l.transitions += 1;
+            match r {
+                Err(p) => report_panic(ctx, "server", &format!("request[store={sname}]"), &exp.cause, &p, &replay),
+                Ok((got, after)) => {
+                    l.ref_cls[0][exp.primary as usize] += 1;
+                    l.lib_cls[0][got as usize] += 1;
+                    let ok = judge(ctx, "server", &format!("request[store={sname}]"), &exp, got, mname, &replay);
+                    if ok && got == Cls::Accept {
+                        if let Some((_, _, stripped)) = &acc {
+                            check_restored(ctx, "server", &format!("request[store={sname}]"), &after, stripped, l, &replay);
+                        }
+                    }
+                }
+            }
+        }
+    }
+    // the answer, signed by the reference, back into the transaction that holds a plain Key
+    let ans_presign = shape(1, true, 0x0909, 0, 2);
+    let (ans, _) = ref_sign(&rk, &mac_prefix(&reqmac), &ans_presign, false, T0 + 2, 300, 0, &[]);
+    let rc = RefClient::new(&rk, false, &reqmac);
+    for (mname, m) in std::iter::once(("honest".to_string(), ans.clone())).chain(structural(&ans, &rk, &mac_prefix(&reqmac), false, T0 + 2).into_iter().filter(|(n, _)| !n.starts_with("other-data-") && !n.starts_with("mac-length"))) {
+        let (exp, _) = rc.expect(&m, T0 + 2);
+        let mut msg = Message::from_octets(m.clone()).unwrap();
+        l.evals += 1;
+        l.transitions += 1;
+        match guard(|| tx.answer(&mut msg, Time48::from_u64(T0 + 2))) {
+            Err(p) => report_panic(ctx, "client-transaction", "answer[K=Key]", &exp.cause, &p, &replay),
+            Ok(r) => {
+                let got = match &r {
+                    Ok(()) => Cls::Accept,
+                    Err(e) => cls_of_validation(e),
+                };
+                l.ref_cls[1][exp.primary as usize] += 1;
+                l.lib_cls[1][got as usize] += 1;
+                judge(ctx, "client-transaction", "answer[K=Key]", &exp, got, &mname, &replay);
+            }
+        }
+    }
+}
+
+fn run_key_misc(ctx: &Arc<Ctx>, g: &Glob) {
+    let mut cases = Vec::new();
+    for alg in ALGS {
+        let opts = [None, Some(alg.floor() - 1), Some(alg.floor()), Some(alg.native()), Some(alg.native() + 1)];
+        for mn in opts {
+            for sg in opts {
+                cases.push((alg, mn, sg));
+            }
+        }
+    }
+    cases.par_iter().for_each(|&(alg, mn, sg)| {
+        let mut l = Local::default();
+        key_misc_case(ctx, &mut l, alg, mn, sg);
+        g.merge(l);
+    });
+    // Algorithm <-> text (configuration files name the algorithm this way)
+    let mut l = Local::default();
+    for alg in ALGS {
+        l.evals += 1;
+        let text = String::from_utf8(alg.label().to_vec()).unwrap();
+        let parsed = Algorithm::from_str(&text).ok();
+        let shown = alg.lib().to_string();
+        if parsed != Some(alg.lib()) || shown != text || alg.lib().native_len() != alg.native() {
+            violate(ctx, "C11|algorithm|text-round-trip", &format!("{text}: parsed {parsed:?}, displayed {shown}, native_len {}", alg.lib().native_len()), &|| json!({"kind": "algorithm_text", "alg": alg.idx()}));
+        }
+    }
+    for bad in ["hmac-md5", "hmac-sha224", "", "sha256", "hmac-sha256."] {
+        l.evals += 1;
+        if Algorithm::from_str(bad).is_ok() {
+            violate(ctx, "C11|algorithm|from_str-accepts-unknown-name", bad, &|| json!({"kind": "algorithm_text", "text": bad}));
+        }
+    }
+    g.merge(l);
+}
+
+// =====================================================================
 // REPLAY AND MAIN
 // =====================================================================
 
@@ -2469,6 +3656,15 @@ fn run_replay(ctx: &Arc<Ctx>, path: &str) -> ! {
         }
         "server_seq" => {
             server_sequence(ctx, &mut l, &KeySpec::from_json(&case["key"]), case["count"].as_u64().unwrap() as usize, case["from_tx"].as_bool().unwrap(), case["shapes_mask"].as_u64().unwrap() as u32);
+        }
+        "middleware" => {
+            middleware_case(ctx, &mut l, &MwCase::from_json(case));
+        }
+        "key_misc" => {
+            key_misc_case(ctx, &mut l, Alg::from_idx(case["alg"].as_u64().unwrap() as usize), case["min"].as_u64().map(|x| x as usize), case["sign"].as_u64().map(|x| x as usize));
+        }
+        "transport-client" => {
+            transport_case(ctx, &mut l, &TransportCase::from_json(case));
         }
         "timesweep" => {
             timesweep(ctx, &mut l, Alg::from_idx(case["alg"].as_u64().unwrap() as usize), case["fudge"].as_u64().unwrap() as u16, case["tb"].as_u64().unwrap());
@@ -2539,10 +3735,13 @@ fn main() {
     run_server_sequences(&ctx, &g);
     run_client_sequences(&ctx, &g, &wd);
     let mutinfo = run_mutations(&ctx, &g, &wd);
+    run_key_misc(&ctx, &g);
+    let tinfo = run_client_transport(&ctx, &g, &wd);
+    let minfo = run_middleware(&ctx, &g, &wd);
 
     let quick = ctx.quick();
     let transitions = g.transitions.load(AO::Relaxed);
-    let sum = |h: &[[AtomicU64; NCLS]; 3], pred: &dyn Fn(usize) -> bool| -> u64 {
+    let sum = |h: &[[AtomicU64; NCLS]; NROLES], pred: &dyn Fn(usize) -> bool| -> u64 {
         let mut n = 0;
         for r in h.iter() {
             for (c, x) in r.iter().enumerate() {
@@ -2573,6 +3772,11 @@ fn main() {
                 "client_sequence_patterns": if quick { "all S/U patterns <=6; alphabet {S,U,Replay,BadMac,Time,WrongSecret} <=3; S U^k S k=0..101" } else { "all S/U patterns <=8; alphabet {S,U,Replay,BadMac,Time,WrongSecret} <=5; S U^k S k=0..101" },
                 "server_sequence_lengths": if quick { "1..=4" } else { "1..=8" },
                 "mutations": mutinfo,
+                "other_entry_points": "Key::generate over {None, floor-1, floor, native, native+1}^2 per algorithm, the generated key used as plain `Key` (key type and single-key store) and in an Arc<HashMap<_, Key>> store against all structural mutations; ClientTransaction::request with the default fudge; Algorithm from_str/Display",
+                "client_transport_bounds": if quick { "single answer: 2 request shapes x 3 compose paths x 4 request modifications by the upstream x 5 clock offsets, plus every bit and structural mutation of the answer; streams: every pattern over {S,U,Replay,BadMac,Time,WrongSecret} <=4 (prefix-closed) x 2 compose paths, every bit and structural mutation of the 2nd message after S and of the 3rd after S U, S U^k (S) for k in 98..=100, end of stream after every accepted pattern" } else { "as quick, patterns <=5" },
+                "middleware_bounds": "8 service plans (1,3,4 responses; BeginTransaction attached / feedback-only; a response that leaves no room for the TSIG at position 0,1,2) x {single-key store, 5-key HashMap store} x 3 request shapes x {signed, unsigned}; clock offsets x {UDP, TCP}; wrong secret; every bit and structural mutation of the request",
+                "client_transport(net::client::tsig)": tinfo,
+                "server_middleware(TsigMiddlewareSvc)": minfo,
             },
             "verdict_histogram_library": g.hist(&g.lib_cls),
             "verdict_histogram_reference": g.hist(&g.ref_cls),
@@ -2591,6 +3795,9 @@ fn main() {
             "'returns the message to its pre-signing octets' is read as: the message delimited by its own section counts equals the pre-signing octets; the library cannot shrink the octets type and leaves the TSIG octets behind the end (counted in counters)",
             "a branch whose honest base case already disagrees with the reference (a reported finding) is closed, not explored through",
             "single-bit flips are first-order: pairs of flips are not enumerated",
+            "net::client::tsig::Connection and TsigMiddlewareSvc read the wall clock (Time48::now()); there the reference signs relative to the real time, the time signed of every library-made TSIG must lie between the readings taken before and after the call, and clock offsets are {-400,-200,0,+200,+400} s (the exact fudge edges are decided at the state machines, which take `now`)",
+            "through the two transport wrappers the structural mutations that re-sign at the fudge edge and the two other-data mutations (a recorded finding at the state-machine level) are left out",
+            "the middleware is driven with services that announce a multi-response answer (BeginTransaction attached to the first response, or as feedback-only items like the XFR service); several responses without that announcement are a contract violation of the service and are not driven",
         ],
     );
 }
